@@ -164,6 +164,12 @@ def run(rec, tier, seed):
                     rec.case(repr(sorted(spt.items())), group='placement-small-tilt')
                     if msg:
                         rec.fail('placement', 'placement', "%s on %r" % (msg, spt), spt, 'C05/placement')
+                if s == 0 and pair in ('grow-shared', 'disjoint', 'grow-planar', 'swap-element'):
+                    spi = dict(spec, f=1.0, copies=4, tilt='inverse-pairs')
+                    msg = check(spi)
+                    rec.case(repr(sorted(spi.items())), group='placement-inverse-poses')
+                    if msg:
+                        rec.fail('placement', 'placement', "%s on %r" % (msg, spi), spi, 'C05/placement')
                 if s == 0 and pair in ('grow-shared', 'swap-element', 'grow-planar', 'single-swap'):
                     # every atom replaced, also those the two patterns share
                     spa = dict(spec, f=1.0, replace_all=True)
